@@ -1711,6 +1711,7 @@ fc_statements = [
             "c_mixin_cfi_character_arg",
         ],
         # Null terminate string.
+        c_helper="ShroudStrAlloc ShroudStrFree",
         pre_call=[
             "char *{c_var} = "
             "{cast_static}char *{cast1}{cfi_prefix}{c_var}->base_addr{cast2};",
